@@ -23,14 +23,14 @@ META = {
     "stubs": ["scipy.interpolate.RegularGridInterpolator -> reference multilinear interpolation, ValueError outside the axes (bounds_error default), records its arguments", "NssGrid -> GridStub"],
     "assumptions": ["REAL mode", "log10 and 10** are strictly monotone mutual inverses (sound axiom instances)", "table entries <= 1 (established for the shipped tables by the data queries)"],
 }
-LEDGER = {"quick": 280, "thorough": 500}
+LEDGER = {"quick": 340, "thorough": 500}
 
 
 def _load():
     return load.load("nuspacesim.simulation.taus.taus", {"RegularGridInterpolator": stubs.RegularGridInterpolator, "NssGrid": stubs.GridStub})
 
 
-def mk_patch(C, nE, nB):
+def mk_patch(C, nE, nB, pre="T"):
     E = [z3.Real(f"E{i}") for i in range(nE)]
     B = [z3.Real(f"B{j}") for j in range(nB)]
     for i in range(nE - 1):
@@ -41,7 +41,7 @@ def mk_patch(C, nE, nB):
     data = _np.empty((nE, nB), dtype=object)
     for i in range(nE):
         for j in range(nB):
-            t = z3.Real(f"T{i}{j}")
+            t = z3.Real(f"{pre}{i}{j}")
             C.assume(t <= 1)
             data[i, j] = SV(t=t)
     g = stubs.GridStub(SymArray(data), [SymArray([SV(t=e) for e in E]), SymArray([SV(t=b) for b in B])], ["log_e_nu", "beta_rad"])
@@ -107,6 +107,9 @@ def main_run(nE, nB, where):
                     parts.append((incell, ref, fl, corners))
             claims["value == 10 ** bilinear(log10 floor(T)) (independent reference blend)"] = z3.And(*[z3.Implies(c, p == ref) for c, ref, _f, _c in parts])
             # min / max of the four surrounding nodes: staged proof (DESIGN 1.8)
+            if not cells_log:
+                cells_log = [{"cell": (0, 0), "weights": [SV(c=Fr(0)), SV(c=Fr(0))]}]
+                claims["the interpolator stub was consulted for this event"] = z3.BoolVal(False)
             cell = cells_log[0]
             ci, cj = cell["cell"]
             tx, ty = cell["weights"][0].term(), cell["weights"][1].term()
@@ -166,23 +169,65 @@ def batch_run(N):
     return run
 
 
-def outside_run(which):
+def isolation_run():
+    """Two Taus objects with different tables, used alternately: every call answers from the object's own table."""
+
+    def run(C):
+        ns = _load()
+        g1, E, B = mk_patch(C, 2, 2, "T")
+        g2, _E, _B = mk_patch(C, 2, 2, "S")
+        T1, T2 = object.__new__(ns["Taus"]), object.__new__(ns["Taus"])
+        T1.pexit_grid, T2.pexit_grid = g1, g2
+        le, be = z3.Real("logE"), z3.Real("beta")
+        C.assume(le >= E[0], le <= E[1], be >= B[0], be <= B[1])
+        args = lambda: (SymArray([SV(t=be)]), SymArray([SV(t=le)]))  # noqa
+        a1 = T1.tau_exit_prob(*args())[0].term()
+        b1 = T2.tau_exit_prob(*args())[0].term()
+        a2 = T1.tau_exit_prob(*args())[0].term()
+
+        def ref(pre):
+            tx, ty = (le - E[0]) / (E[1] - E[0]), (be - B[0]) / (B[1] - B[0])
+            lg = {(i, j): core.sv_log10(SV(t=_floor(z3.Real(f"{pre}{i}{j}")))).term() for i in range(2) for j in range(2)}
+            blend = (1 - tx) * (1 - ty) * lg[(0, 0)] + (1 - tx) * ty * lg[(0, 1)] + tx * (1 - ty) * lg[(1, 0)] + tx * ty * lg[(1, 1)]
+            return core.exp10(SV(t=blend)).term()
+
+        claims = {
+            "first object answers from its own table": a1 == ref("T"),
+            "a second object with a different table answers from ITS table (no state shared between objects)": b1 == ref("S"),
+            "the first object is unaffected by the use of the second": a2 == ref("T"),
+        }
+        return harness.Out(claims=claims, inputs={"logE": le, "beta": be})
+
+    return run
+
+
+def outside_run(which, where="inside"):
     def run(C):
         ns = _load()
         g, E, B = mk_patch(C, 2, 2)
         T = object.__new__(ns["Taus"])
         T.pexit_grid = g
         le, be = z3.Real("logE"), z3.Real("beta")
-        C.assume(be >= B[0], be <= B[1])
-        C.assume(le < E[0] if which == "below" else le > E[1])
-        try:
-            T.tau_exit_prob(SymArray([SV(t=be)]), SymArray([SV(t=le)]))
-            raised = False
-        except ValueError:
-            raised = True
-        return harness.Out(claims={f"energy {which} the table range is rejected with an error": z3.BoolVal(raised)}, inputs={"logE": le})
+        if where == "inside":
+            C.assume(be >= B[0], be <= B[1])
+        else:
+            C.assume(be >= 0, be < B[0])
+        return _outside_body(C, T, E, le, be, which, where)
 
     return run
+
+
+def _outside_body(C, T, E, le, be, which, where):
+    if True:
+        if True:
+            pass
+    C.assume(le < E[0] if which == "below" else le > E[1])
+    try:
+        T.tau_exit_prob(SymArray([SV(t=be)]), SymArray([SV(t=le)]))
+        raised = False
+    except ValueError:
+        raised = True
+    return harness.Out(claims={f"energy {which} the table range is rejected with an error (angle {where} the table)": z3.BoolVal(raised)}, inputs={"logE": le, "beta": be})
 
 
 def job_main(nE, nB, where, tier):
@@ -193,8 +238,12 @@ def job_batch(N, tier):
     return harness.run_job(f"tau_exit_prob(batch N={N})", batch_run(N), timeout_ms=60000, second=(tier == "thorough"))
 
 
-def job_outside(which, tier):
-    return harness.run_job(f"tau_exit_prob(energy {which})", outside_run(which), timeout_ms=30000)
+def job_outside(which, tier, where="inside"):
+    return harness.run_job(f"tau_exit_prob(energy {which}, angle {where})", outside_run(which, where), timeout_ms=30000)
+
+
+def job_isolation(tier):
+    return harness.run_job("tau_exit_prob (two objects, different tables)", isolation_run(), timeout_ms=60000, second=(tier == "thorough"))
 
 
 def job_pexit(version):
@@ -211,6 +260,9 @@ def jobs(tier, seed):
     out.append(("b", "job_batch", {"N": 2, "tier": tier}))
     out.append(("ob", "job_outside", {"which": "below", "tier": tier}))
     out.append(("oa", "job_outside", {"which": "above", "tier": tier}))
+    out.append(("obl", "job_outside", {"which": "below", "tier": tier, "where": "below"}))
+    out.append(("oal", "job_outside", {"which": "above", "tier": tier, "where": "below"}))
+    out.append(("iso", "job_isolation", {"tier": tier}))
     for v in ("1", "2", "3"):
         out.append((f"pexit{v}", "job_pexit", {"version": v}))
     return out
@@ -242,6 +294,42 @@ def replay(v):
     if job.startswith("data "):
         return tables.replay_data(v)
     m = v.get("model") or {}
+    if job.startswith("tau_exit_prob (two objects"):
+        from scipy.interpolate import RegularGridInterpolator as RGI
+
+        from nuspacesim.config import NssConfig
+        from nuspacesim.simulation.taus.taus import Taus
+
+        rng = np.random.default_rng(4)
+        n = 500
+        betas, les = rng.uniform(0.01, 0.7, n), rng.uniform(6.1, 11.9, n)
+        objs = []
+        for ver in ("3", "1", "3", "2"):
+            cfg = NssConfig()
+            cfg.simulation.tau_shower.table_version = ver
+            T = Taus(cfg)
+            own = np.where(np.asarray(T.pexit_grid.data) <= 0, np.finfo(np.float32).eps, np.asarray(T.pexit_grid.data)).copy()
+            objs.append((ver, T, RGI([np.asarray(a) for a in T.pexit_grid.axes], np.log10(own))))
+        for ver, T, rgi in objs:
+            got = T.tau_exit_prob(betas.copy(), les.copy())
+            ref = 10 ** rgi((les, betas))
+            nbad = int(np.sum(np.abs(got - ref) > 1e-9 * np.abs(ref)))
+            if nbad:
+                return {"reproduced": True, "key": "tau_exit_prob: state shared between Taus objects (a later object answers from another object's table)",
+                        "detail": f"objects for table versions 3, 1, 3, 2 used in that order: version {ver} disagrees with its own table at {nbad} of {n} points"}
+        return {"reproduced": False, "key": None, "detail": "each real object answers from its own table"}
+    if job.startswith("tau_exit_prob(energy"):
+        from nuspacesim.config import NssConfig
+        from nuspacesim.simulation.taus.taus import Taus
+
+        T = Taus(NssConfig())
+        le = 5.5 if "energy below" in job else 12.4
+        b = 0.3 if "angle inside" in job else 0.0008
+        try:
+            r = T.tau_exit_prob(np.array([0.3, b]), np.array([8.0, le]))
+        except Exception:
+            return {"reproduced": False, "key": None, "detail": "real code raises"}
+        return {"reproduced": True, "key": "tau_exit_prob: an out-of-table energy is not rejected", "detail": f"log10(E) = {le} at beta = {b} rad returned {r.tolist()} instead of raising"}
     if not job.startswith("tau_exit_prob(patch"):
         return {"reproduced": False, "key": None, "detail": "no numeric replay"}
     nE, nB = int(job.split("patch ")[1][0]), int(job.split("patch ")[1][2])
